@@ -49,18 +49,29 @@ type c16Span struct {
 func TestVerif_C16(t *testing.T) {
 	run := verifkit.Start(t, "C16", "cluster")
 	defer run.Finish()
-	run.Rule("a case = one 2-3 node cluster (PRNG: stress SamplingRate 1|2|3|5, BatchTimeout 5-50ms, MaxBatchSize 1-50, normal sampler keep-all or drop-all) and 30-50 traces whose spans arrive in three phases on PRNG-chosen nodes: first spans while stressed, more spans while still stressed, late spans after relief ended (with or without waiting for the upstream batches to be dispatched first), plus fresh traces after relief; non-trivial when a trace first seen under stress is observed; distinct = (rate, rule decision, entered on owner / non-owner / both, has later stressed spans, has late spans after relief)")
+	run.Rule("a case = one 2-3 node cluster (PRNG: stress SamplingRate 0|1|2|3|5|50, BatchTimeout 5-50ms, MaxBatchSize 1-50, normal sampler keep-all or drop-all; case 0 mod 4 is fixed to SamplingRate 1 + drop-all normal sampler, case 2 mod 4 to SamplingRate 0|1|2|50 + drop-all) and 30-50 traces whose spans arrive in three phases on PRNG-chosen nodes: first spans while stressed, more spans while still stressed, late spans after relief ended (with or without waiting for the upstream batches to be dispatched first), plus fresh traces after relief; non-trivial when a trace first seen under stress is observed; distinct = (rate, rule decision, entered on owner / non-owner / both, has later stressed spans, has late spans after relief)")
 	run.Assume("expected decision = wyhash(traceID, 34527861234) <= MaxUint64/SamplingRate, restated in the harness from the StressRelief documentation/code constant")
 	run.Assume("stress relief is switched on all nodes between phases while no client request is outstanding and no peer request is queued")
 
 	run.Cases("stress", run.N(4, 300), func(ci int, rng *verifkit.Rand) {
 		nNodes := 2 + rng.Intn(2)
-		rate := verifkit.Pick(rng, uint64(1), 2, 2, 3, 5)
+		rate := verifkit.Pick(rng, uint64(1), 2, 2, 3, 5, 50)
 		batchTimeout := time.Duration(rng.Range(5, 50)) * time.Millisecond
 		maxBatch := verifkit.Pick(rng, 1, 2, 5, 20, 50)
 		normalKeepsAll := rng.Bool()
 		compress := rng.Bool()
 		waitUpstreamBeforeRelief := rng.Bool()
+		// Fixed strata so that every tier has the "keep everything under stress,
+		// normal sampler would drop" combination: with SamplingRate 1 (or 0, which
+		// StressRelief normalises to 1) every trace first seen under stress is kept,
+		// so a late span after relief can only be forwarded if the stress decision
+		// was remembered; a fresh decision by the drop-all sampler loses it.
+		switch ci % 4 {
+		case 0:
+			rate, normalKeepsAll = 1, false
+		case 2:
+			rate, normalKeepsAll = verifkit.Pick(rng, uint64(0), 1, 2, 50), false
+		}
 		cl, err := e2Start(e2Options{Nodes: nNodes, Configure: func(_ int, cfg *config.MockConfig) {
 			cfg.GetTracesConfigVal.BatchTimeout = config.Duration(batchTimeout)
 			cfg.GetTracesConfigVal.MaxBatchSize = uint(maxBatch)
